@@ -501,3 +501,15 @@ func OsFileStat(f *os.File) (os.FileInfo, error) {
 	gf := osFiles[f]
 	return ghostInfo{name: gf.T.Name, size: gf.T.Len, regular: true}, nil
 }
+
+// unicode.IsSpace, exactly as documented (Unicode's White_Space property), without the range tables the real function
+// consults for characters beyond Latin-1 (package initialisers are not run by the executor).
+//
+//verif:replace unicode.IsSpace
+func unicodeIsSpace(r rune) bool {
+	switch r {
+	case '\t', '\n', '\v', '\f', '\r', ' ', 0x85, 0xA0, 0x1680, 0x2028, 0x2029, 0x202f, 0x205f, 0x3000:
+		return true
+	}
+	return r >= 0x2000 && r <= 0x200a
+}
